@@ -205,6 +205,98 @@ def run_load_case(root, g, j, maxload, load, k, faults):
         sim.close()
 
 
+def plain_edge(out, exp, pool=''):
+    return dict(outs=[out], iouts=[], phony=False, exp=list(exp), imp=[], oo=[], vals=[], restat=False, generator=False, deps='',
+                hidden=[], variant='v0', pool=pool, rsp=None, dd=None, depfile_layout=0)
+
+
+def run_wide_case(root, n, j, depth, pooled, closeout, sleeps, tail):
+    """n independent commands (some in a pool of the given depth) and `tail` commands behind the first one, built from
+    scratch with -j.  With `closeout` every command lets go of ninja's pipe at once and keeps running for sleeps[i] ms:
+    ninja sees end-of-file long before the process is gone, several of them in one wake-up while it waits for another
+    one to exit - a process that is not reaped yet still occupies its slot (and its pool's)."""
+    g = dict(srcs=['s0'], pools=({'p1': depth} if pooled else {}), edges=[])
+    for i in range(n):
+        g['edges'].append(plain_edge('w%d' % i, ['s0'], 'p1' if i in pooled else ''))
+    for i in range(tail):
+        g['edges'].append(plain_edge('t%d' % i, ['w0']))
+    sim = e2e.RealSim(root, g)
+    labels = set()
+    try:
+        sim.write('s0', 'x')
+        cmds = sim.cmd_edges()
+        sim.extra_env = {"VERIF_SLEEP": ",".join("%s:%d" % (key(e), sleeps[i % len(sleeps)]) for i, e in enumerate(cmds))}
+        if closeout:
+            sim.extra_env["VERIF_CLOSEOUT"] = ",".join("%s:1" % key(e) for e in cmds)
+            sim.vtool = "exec " + sim.vtool
+            labels.add('wide_commands_close_their_output_early')
+        req = sim.request([key(e) for e in g['edges']], j=j, k=1)
+        sim.time_limit = 45
+        detail = dict(n=n, j=j, depth=depth, pooled=sorted(pooled), closeout=closeout, sleeps=sleeps, tail=tail)
+        try:
+            res = sim.execute(req)
+        except ProbeDied as d:
+            detail.update(died=d.died, output=d.stderr[-300:])
+            return dict(kind="ninja died or did not terminate on a wide graph: %s" % json.dumps(d.died), detail=detail), labels
+        starts = [ev for ev in res['trace'] if ev['ev'] == 'start']
+        labels.add('wide_build')
+        if any(len(ev['running']) + 1 == j for ev in starts):
+            labels.add('wide_saturated')
+        pool_of = {key(e): e['pool'] for e in g['edges']}
+        for ev in starts:
+            if len(ev['running']) + 1 > j:
+                return dict(kind="more commands alive (%d) than -j%d allows (commands that closed their output are still processes)" % (len(ev['running']) + 1, j),
+                            detail=dict(detail, running=ev['running'], starting=ev['edge'])), labels
+            if pool_of.get(ev['edge']) and 1 + sum(1 for r in ev['running'] if pool_of.get(r) == pool_of[ev['edge']]) > depth:
+                return dict(kind="more commands of pool p1 alive than its depth %d" % depth, detail=dict(detail, running=ev['running'], starting=ev['edge'])), labels
+        seen = [ev['edge'] for ev in starts]
+        if len(seen) != len(set(seen)):
+            return dict(kind="a command ran twice in one invocation", detail=dict(detail, starts=seen)), labels
+        if res['status'] != 0 or sorted(seen) != sorted(key(e) for e in cmds):
+            return dict(kind="wide build without faults: status %d, ran %d of %d commands" % (res['status'], len(seen), len(cmds)), detail=dict(detail, output=res['err'][-300:])), labels
+        return None, labels
+    finally:
+        sim.close()
+
+
+def wide_worker(widx, n_examples):
+    res = common.Result()
+    state = {}
+    budget = common.ShrinkBudget()
+    root = common.scratch_root()
+    try:
+        @hseed(common.sub_seed(PROP, 'wide', widx))
+        @settings(max_examples=n_examples, deadline=None, database=None, suppress_health_check=list(HealthCheck),
+                  phases=[Phase.generate, Phase.shrink], verbosity=Verbosity.quiet, report_multiple_bugs=False)
+        @given(st.integers(4, 9), st.sampled_from([2, 3, 3, 4]), st.integers(1, 2), st.lists(st.integers(0, 8), max_size=4, unique=True),
+               st.sampled_from([True, True, True, False]), st.lists(st.sampled_from([20, 40, 60, 90, 120, 150]), min_size=2, max_size=5), st.integers(0, 2))
+        def test(n, j, depth, pooled, closeout, sleeps, tail):
+            pooled = [i for i in pooled if i < n]
+            case = dict(kind='wide', n=n, j=j, depth=depth, pooled=pooled, closeout=closeout, sleeps=sleeps, tail=tail)
+            dg = common.digest(case)
+            if budget.skip(dg):
+                return
+            f, labels = run_wide_case(root, n, j, depth, pooled, closeout, sleeps, tail)
+            res.case(case, 'wide_saturated' in labels, ['wide:' + l for l in labels], sample=case if closeout else None)
+            if f:
+                state['fail'] = (case, "[real binary, wide graph] %s %s" % (f['kind'], json.dumps(f['detail'], default=repr)[:1200]))
+                budget.failed(dg)
+                raise AssertionError()
+        common.run_hypothesis(test, state, res)
+    finally:
+        shutil.rmtree(root, ignore_errors=True)
+    return res
+
+
+def replay_wide(case):
+    root = common.scratch_root()
+    try:
+        f, _ = run_wide_case(root, case['n'], case['j'], case['depth'], case['pooled'], case['closeout'], case['sleeps'], case['tail'])
+    finally:
+        shutil.rmtree(root, ignore_errors=True)
+    return f['kind'] if f else None
+
+
 def load_worker(widx, n_examples):
     res = common.Result()
     state = {}
@@ -315,6 +407,18 @@ def run(tier):
             ck.violation(f['case'], f['why'])
         else:
             ck.res.notes.append("FLAKY %d/3: %s" % (fails, f['why'][:200]))
+    rw = common.run_workers(wide_worker, [(w, (150 if tier == 'thorough' else 6)) for w in range(common.NCPU)])
+    ck.merge(rw)
+    for f in rw.failures:
+        if f.get('harness_error'):
+            continue
+        fails = sum(1 for _ in range(3) if replay_wide(f['case']))
+        if fails == 3:
+            ck.violation(f['case'], f['why'])
+        else:
+            ck.res.notes.append("FLAKY %d/3: %s" % (fails, f['why'][:200]))
+    ck.rule += (" E2E wide part: 4-9 independent commands (some in a pool of depth 1-2), -j2..4, from scratch; in three of four cases every command "
+                "closes its stdout/stderr at once and keeps running 20-150 ms: the number of live commands at every start must stay <= -j and <= the pool depth.")
     ck.rule += (" E2E load-limit part: the real binary with -l N and a scripted load average (LD_PRELOAD shim for getloadavg): with spare capacity "
                 "trunc(N - load) <= 0 never two commands at once, yet the build ends and runs everything; otherwise concurrency <= -j.")
     ck.rule += (" E2E jobserver part: generated graph built from scratch by the real binary as a client of a fifo jobserver with 0-3 tokens, -j 1..8, -k, "
@@ -325,8 +429,8 @@ def run(tier):
 def replay(path):
     j = json.load(open(path))
     case = j.get('case', j)
-    if case.get('kind') == 'load':
-        why = replay_load(case)
+    if case.get('kind') in ('load', 'wide'):
+        why = replay_load(case) if case['kind'] == 'load' else replay_wide(case)
         if why:
             print("finding:", why)
             print("VIOLATION property=%s replay=%s" % (PROP, path))
